@@ -1,6 +1,8 @@
 SPECIFICATION FairSpec
 CONSTANTS MaxVersion = 3
  MaxFaults = 2
+  ClaimFirst = FALSE
  SilentRace = TRUE
 PROPERTY Heals
+INVARIANT NoLostUpdate
 CHECK_DEADLOCK FALSE
